@@ -2,7 +2,8 @@
 # usage: tools/try_seed.sh <seed-id> <CNN> [<CNN>...] : run checks against /repo + the seeded patch
 id=$1; shift
 S=/tmp/scratch-seed-$id
-rm -rf $S && cp -a /repo $S && (cd $S && git apply /tmp/seeded/$id/patch.diff) || { echo "patch does not apply"; exit 2; }
+P=/tmp/seeded/$id/patch.diff; [ -f /tmp/seeded/$id/patch-current.diff ] && P=/tmp/seeded/$id/patch-current.diff  # re-based on later fix commits
+rm -rf $S && cp -a /repo $S && (cd $S && git apply $P) || { echo "patch does not apply"; exit 2; }
 for c in "$@"; do
   VK_REPO=$S /verif/check $c ${TIER:-quick} > /tmp/try.$id.$c.out 2>&1; rc=$?
   echo "seed $id check $c rc=$rc $(grep -a -m2 'class=' /tmp/try.$id.$c.out | cut -c1-220 | tr '\n' ' ')"
